@@ -183,6 +183,19 @@ def run(ck):
     if rc != 0:
         ck.report("translator:builder", "builder translator failed (executor/mod.rs build_id_subscriber is no longer of a shape the model is generated from): " + out[-300:],
                   replay={"out": out[-1500:]}, found_input=False)
+    # the row-estimate arms are regenerated from rules/rows.rs (one statement per arm: estimates never negative)
+    rc, out = vlib.sh([sys.executable, os.path.join(vlib.VERIF, "translator/gen_rows.py"), vlib.REPO])
+    ck.log(out.strip().split("\n")[-1][:160])
+    rows_thms = []
+    if rc != 0:
+        ck.report("translator:rows", "row-estimate translator failed (rules/rows.rs analyze_rows is no longer of a shape the statements are generated from): " + out[-300:],
+                  replay={"out": out[-1500:]}, found_input=False)
+    else:
+        ra = json.load(open(os.path.join(vlib.LEAN, "RlModel/Gen/rows_arms.json")))
+        rows_thms = ["Rows.%s_inv" % a for a in ra["arms"]]
+        ck.coverage["row_estimate_arms"] = len(ra["arms"])
+        if not ra.get("clamped"):
+            ck.report("translator:rows-clamp", "analyze_rows no longer clamps its result (`rows.min(f32::MAX)`): estimates may be infinite, `inf * 0.0` is NaN", replay={"arms": ra["arms"]}, found_input=False)
     # rules translator (stage composition is needed by the harness)
     rc, out = vlib.sh([sys.executable, os.path.join(vlib.VERIF, "translator/gen_rules.py"), vlib.REPO])
     if rc != 0:
@@ -194,6 +207,8 @@ def run(ck):
     # ---- Lean
     bad = vlib.step_lean(ck, "RlModel.Thm.C17", THEOREMS, extra_targets=["drv_c17"])
     bad.update(vlib.step_lean(ck, "RlModel.Thm.C17Proj", THEOREMS_PROJ))
+    if rows_thms:
+        bad.update(vlib.step_lean(ck, "RlModel.Thm.C17Rows", rows_thms + ["Rows.not_of_unclamped_in_negative", "Rows.limit_minus_offset_negative"]))
     for name, st in bad.items():
         ck.report("thm:" + name, "theorem %s no longer checks: %s" % (name, st.get("detail", st["status"])), replay={"theorem": name, "status": st}, found_input=False)
 
